@@ -85,6 +85,10 @@ fn near_misses(suffix: bool) -> Vec<(&'static str, bool)> {
         ("app_r00007.LOG", false),
         ("app_r2020-01-01_00-00-00.Log", false),
         ("app_r00001.log.GZ", false),
+        // the name parts in another case
+        ("APP_r00001.log", false),
+        ("App_r2020-01-01_00-00-00.log", false),
+        ("APP_rCURRENT.log", false),
     ];
     if suffix {
         v.push(("app_r00001", false));
@@ -270,6 +274,7 @@ fn name_class(n: &str) -> &'static str {
         "app_r+0042.log" | "app_r+00042.log" | "app_r-0042.log" | "app_r+0042" => "signed-number",
         "app_r2020-01-01_00-00-00.bak.log" | "app_r2024-05-15_12-30-10.1.log" | "app_r00001.bak.log" => "infix+dotted-text",
         "app_r00007.LOG" | "app_r2020-01-01_00-00-00.Log" | "app_r00001.log.GZ" => "suffix-in-other-case",
+        "APP_r00001.log" | "App_r2020-01-01_00-00-00.log" | "APP_rCURRENT.log" => "basename-in-other-case",
         "app_r00042.log" | "app_r00042" => "directory-named-like-a-log-file",
         "app_r00043.log" | "app_r00043" => "symlink-to-directory-named-like-a-log-file",
         "app_r9999-99-99_99-99-99.log" | "app_r2024-05-15_12-30-10.restart-abcd.log" | "app_r2024-05-15_12-30-10.restart-" => "timestamp-like",
